@@ -21,7 +21,12 @@ fn finish(xs: &mut Xstate, r: &Xresult) -> String {
 /// before a failure, an `exit` code that is not an integer
 fn drive_shape(r: &mut crate::rng::Rng) -> String {
     let (a, b, n) = (r.range(-5, 50), r.range(0, 9), r.range(1, 6));
-    match r.below(12) {
+    match r.below(15) {
+        // user-defined immediate words: they run at build time, alone (repair a64e06d: the code compiled so far is not
+        // executed with them, nor a second time by compile + run)
+        12 => format!(": imm immediate {} println ; {} imm {}", b, a, n),
+        13 => format!(": k3 immediate {} {} * ; {} k3 + k3", n, b, a),
+        14 => format!("{} var cnt : tick immediate cnt 1 + ! cnt ; tick {} tick cnt", a, b),
         0 => format!("{} exit {}", b, a),
         1 => format!("{} {} exit", a, b),
         2 => format!(": q {} exit ; 1 q 2", b),
@@ -40,9 +45,25 @@ fn drive_shape(r: &mut crate::rng::Rng) -> String {
 pub fn run(ctx: &mut Ctx) {
     let base = Xstate::boot().unwrap();
     let cfg = GenCfg { endless: true, ..GenCfg::default() };
+    // known finding: a user-defined immediate word runs in the context of the source being built, and that context's
+    // data-stack floor depends on the mode — under eval it reaches values left by earlier programs, under compile it does not
+    {
+        let mut outcomes: Vec<String> = Vec::new();
+        for mode in ["eval", "run"] {
+            let mut xs = base.clone();
+            xs.intercept_stdout(true);
+            xs.eval("7").unwrap();
+            let src = ": imm immediate drop ; imm";
+            let r = crate::guarded(|| if mode == "eval" { xs.eval(src) } else { xs.compile(src).and_then(|_| xs.run()) });
+            outcomes.push(match r { Some(r) => finish(&mut xs, &r), None => "panic".into() });
+        }
+        ctx.check(outcomes[0] == outcomes[1], || "[user-immediate-sees-stack] C15 `7` then `: imm immediate drop ; imm`".to_string(),
+            || format!("compile+run ends like eval: {}", outcomes[0]), || outcomes[1].clone());
+    }
     let mut n_done = 0;
     while n_done < ctx.n {
         let (src, tags) = if ctx.rng.chance(10) { (drive_shape(&mut ctx.rng), vec!["drive-shape"]) } else { gen_program(&mut ctx.rng, &cfg) };
+        if src.contains(" immediate ") { ctx.tag("prog:user-immediate"); }
         n_done += 1;
         for t in tags.iter() { ctx.tag(&format!("prog:{}", t)); }
         let mut results: Vec<(String, String)> = Vec::new();
@@ -75,7 +96,9 @@ pub fn run(ctx: &mut Ctx) {
         ctx.tag(if first.starts_with("ok") { "result:ok" } else if first.contains("limit reached") { "result:limit" } else { "result:err" });
         let obs = results.iter().map(|(m, t)| format!("{}: {}", m, t)).collect::<Vec<_>>().join("\n");
         ctx.check(all_same, || format!("C15 `{}`", src), || format!("all six drive modes end like eval/norec: {}", first), || obs);
-        // correspondence on the compiled bytecode: run vs step*, recording off/on
+        // correspondence on the compiled bytecode: run vs step*, recording off/on (not for user-defined immediate words:
+        // what they do at build time — output, stack — is not part of the machine set-up handed to the model)
+        if src.contains(" immediate ") { ctx.tag("skipped:user-immediate"); continue; }
         let mut xs = base.clone();
         xs.intercept_stdout(true);
         xs.set_insn_limit(Some(LIMIT)).unwrap();
